@@ -39,7 +39,7 @@ def generate(rng, tier):
     streams = R.base_streams(rng, 6000 if thorough else 1600, max_len=30000, legacy_max=200000 if thorough else 3000, small=False)
     if streams is None:
         return R.build_error_case()
-    cases = R.selftest_cases(FLAVOUR)
+    cases = R.regression_cases(FLAVOUR, ORACLES, kd=False) + R.selftest_cases(FLAVOUR)
     for s in streams:
         present = "".join(str(t) for t in s.present)
         skip = "01234" if rng.random() < 0.5 else ("".join(c for c in present if rng.random() < 0.6) or present[:1] or "0")
@@ -49,6 +49,9 @@ def generate(rng, tier):
     for s in muts:
         for tag, data in R.mutations(rng, s, pool, "dense" if thorough and len(s.data) < 300 else "light"):
             cases.append(R.make_case(data, "01234", FLAVOUR, ORACLES, (tag, "mut:" + s.cls), base=s.data))
+    # structure-aware corruption of every located small-integer field; tamper-hook streams (semantic corruption)
+    cases += R.structured_cases(rng, tier, FLAVOUR, ORACLES, n_each=12 if thorough else 5)
+    cases += R.tamper_cases(rng, tier, FLAVOUR, ORACLES, budget=None if thorough else 6000)
     return cases
 
 
